@@ -30,6 +30,7 @@ package raft
 //@ func (*leader).majorityMatchIndex
 //@   requires l.Raft != nil && l.storage != nil && ReplsCover(l) && KeyIsID(l.configs.Latest) && LeaderCache(l)
 //@   requires NumVoters(l.configs.Latest) >= 1
+//@   props C06 C11
 //@   ensures [C02.majority] QuorumHas(l, result0)
 //@   loop 1 invariant subset(visitedset(), keys(l.configs.Latest.Nodes)) && 0 <= i && i == cntv(col(l.configs.Latest.Nodes, Voter), visitedset()) && len(matched) == card(keys(l.configs.Latest.Nodes))
 //@   loop 1 invariant forall(v, scge(matched, i, v) == cntge(col(l.configs.Latest.Nodes, Voter), MatchOf(l), visitedset(), v))
